@@ -24,16 +24,17 @@ type c08Op struct {
 }
 
 type c08Scenario struct {
-	WebSocket bool       `json:"websocket"`
-	Component bool       `json:"component"`
-	TLS       bool       `json:"tls"`
-	Client    ClientOpts `json:"client"`
-	Ops       []c08Op    `json:"ops"`
-	Tasks     int        `json:"tasks"`
-	FailWrite int        `json:"fail_write_j"` // j-th socket write after establishment fails (0: none)
-	Partial   int        `json:"fail_partial_bytes"`
-	Seg       int        `json:"segmentation"`
-	LatencyNs int64      `json:"latency_ns"`
+	WebSocket    bool       `json:"websocket"`
+	Component    bool       `json:"component"`
+	TLS          bool       `json:"tls"`
+	Client       ClientOpts `json:"client"`
+	Ops          []c08Op    `json:"ops"`
+	Tasks        int        `json:"tasks"`
+	BackPressure int        `json:"backpressure_window,omitempty"` // >0: the server's receive window; it stops reading for a while
+	FailWrite    int        `json:"fail_write_j"`                  // j-th socket write after establishment fails (0: none)
+	Partial      int        `json:"fail_partial_bytes"`
+	Seg          int        `json:"segmentation"`
+	LatencyNs    int64      `json:"latency_ns"`
 }
 
 func init() {
@@ -86,6 +87,10 @@ func runC08(e *Engine, g G, o RunOpt) RunInfo {
 	if g.Pct("failwrite", 30) {
 		sc.FailWrite = g.Range("failj", 1, n+1)
 		sc.Partial = []int{0, 0, 1, 17, 300}[g.N("partial", 5)]
+	}
+	if !sc.TLS && !sc.WebSocket && sc.FailWrite == 0 && g.Pct("backpressure", 15) {
+		// a slow server: senders block in the middle of their writes and queue up behind each other
+		sc.BackPressure = []int{600, 3000, 20000}[g.N("window", 3)]
 	}
 	sc.Seg, sc.LatencyNs = netModes(g, e)
 	script := DefaultNeg()
@@ -177,6 +182,15 @@ func runC08(e *Engine, g G, o RunOpt) RunInfo {
 		if sc.FailWrite > 0 {
 			cli.FailWriteAt = cli.Writes + sc.FailWrite
 			cli.FailPartial = sc.Partial
+		}
+		if sc.BackPressure > 0 && conn != nil {
+			conn.End.RecvWindow = sc.BackPressure
+			conn.PauseReads = true
+			e.Probe("c08.backpressure")
+			e.Go("unpause", func() {
+				e.Sleep(2*time.Second + 41*time.Microsecond)
+				conn.PauseReads = false
+			})
 		}
 		for t := 0; t < sc.Tasks; t++ {
 			t := t
